@@ -174,6 +174,9 @@ def run(ctx):
         ctx.violation("drivers", "C03 fails on the real tool: %s\n" % b)
     if not okp and not ctx.violations:
         ctx.violation("proof", "a proof obligation of props/C03.v no longer checks:\n" + common.coq_error_excerpt(log), found_input=False)
+    # regression layouts: a contracted method whose declaring package the caller reaches only transitively
+    from . import markers
+    markers.corpus_modules(ctx, "c03r", "package layouts of contracted callees")
     ctx.write_evidence()
 
 
